@@ -59,13 +59,21 @@ def gen_scenario(ctx, k):
     for i in range(n):
         src = rng.choice(conn + [None]) if conn else None
         if src is None:
-            ad = (123, 0, 0)
+            ad = (250, 0, 0)          # outside the address ranges the tree generator uses
             b = {'segments': []}
         else:
             b = src
             ad = m.addr[b['id']]
         kind, data = gen_report(rng, b)
-        cases.append((ad, kind, data, src['id'] if src else None, bool(src and cfggen.secack(src)), bool(src is blocked_board and blocked_board is not None)))
+        blk = False
+        if blocked_board is not None and src is not None:
+            ba = m.addr[blocked_board['id']]
+            if variant == 'stall':
+                from ..flow import Flow
+                blk = tuple(ba) in Flow.ancestors_or_self(tuple(ad))      # a stalled node blocks its whole subtree
+            else:
+                blk = tuple(ba) == tuple(ad)
+        cases.append((ad, kind, data, src['id'] if src else None, bool(src and cfggen.secack(src)), blk))
         sc.add(f'mark c{i}', up(model.build_msg(ad, 0, C(kind), data)), 'quiesce')
     sc.add(f'mark c{n}')
     if blocked_board is not None:
@@ -123,11 +131,17 @@ def evaluate(ctx, r, cfg, nodes, cases, variant, blocked, meta):
         evs = seen.get(len(cases), [])
         mir = [(tuple(e['addr']), e['type'], bytes.fromhex(e['data'])) for e in evs if e.get('e') == 'txm' and e['type'] in mirror_types]
         pos_t = C('MSG_BM_MIRROR_POSITION')
-        if [x for x in mir if x[1] != pos_t] != [x for x in owed if x[1] != pos_t] or len(mir) != len(owed):
+        def pernode(lst):
+            d = {}
+            for x in lst:
+                d.setdefault(x[0], []).append(x)
+            return d
+        if pernode([x for x in mir if x[1] != pos_t]) != pernode([x for x in owed if x[1] != pos_t]) or len(mir) != len(owed):
             ctx.violation('owed-mirrors', variant, f'after the {variant} block of board {blocked} was lifted {len(mir)} mirrors appeared, {len(owed)} were owed (in order, exactly once): '
                           f'got {[(hex(t), d.hex()) for a, t, d in mir][:4]} owed {[(hex(t), d.hex()) for a, t, d in owed][:4]}', r.scenario, r.flavour, meta)
             return
-        for g, e in zip(mir, owed):
+        pm, po = pernode(mir), pernode(owed)
+        for g, e in [(g, e) for nd in po for g, e in zip(pm.get(nd, []), po[nd])]:
             if g != e:
                 if ctx.violation('mirror-payload', 'position' if e[1] == pos_t else 'owed', f'owed mirror: got data {g[2].hex()}, expected {e[2].hex()}', r.scenario, r.flavour, meta):
                     return
